@@ -83,6 +83,9 @@ func (cr *cursor) updatePictoSequence() bool {
 		} else if cr.grapheme == ucd.GraphemeBreakZWJ {
 			// close the variable part of the sequence with (ZWJ)
 			cr.pictoSequence = seenPictoZWJ
+		} else if cr.isExtentedPic {
+			// the current sequence stops, but this rune starts a new one
+			cr.pictoSequence = inPictoExtend
 		} else {
 			// stop the sequence
 			cr.pictoSequence = noPictoSequence
